@@ -2,6 +2,7 @@
 mod common;
 mod sodium;
 mod c12;
+mod objapi;
 mod c09;
 mod c18;
 mod c07;
